@@ -98,6 +98,20 @@ func (b *build) searchEnv() []string {
 	return []string{"GOMAXPROCS=1", "GOTRACEBACK=single"}
 }
 
+// buildE5only compiles only the serialized synctest worker.
+func (b *build) buildE5only() (*build, error) {
+	start := time.Now()
+	ser := *b
+	ser.testBin = filepath.Join(b.dir, "worker5")
+	ser.phase = "serialized"
+	if out, err := run(b.harness, goEnv(), "go1.26.8", "test", "-c", "-o", ser.testBin, "./conc"); err != nil {
+		infra("E5 build failed: %v\n%s", err, out)
+	}
+	b.buildS += time.Since(start).Seconds()
+	ser.buildS = b.buildS
+	return &ser, nil
+}
+
 // buildE5 compiles the synctest worker (and its -race variant) with go1.26.8.
 func (b *build) buildE5() (*build, *build) {
 	start := time.Now()
